@@ -92,6 +92,8 @@ def dec(q):
 
 def numtxt(q, e, style):
     if e and q != 0:
+        if style in ("plain", "frac") and -8 <= e < 0:
+            return dec(q * Fraction(1, 10 ** -e))       # 5*10^-3 written out as 0.005 (exponent form in the dense style)
         return dec(q) + "e%d" % e
     if style == "frac" and q.denominator != 1:
         return "%d/%d" % (q.numerator, q.denominator)
